@@ -170,8 +170,9 @@ void Server::Impl::onTcpReceived(const TcpServer::ConnToken &ct, Buffer &buff)
                 //! 标记当前请求为close请求
                 conn->close_index = conn->req_index;
                 LogDbg("mark close at %d", conn->close_index);
-
-                tcp_server_.shutdown(ct, SHUT_RD);
+                //! The receive direction is NOT shut down here: the socket would read end-of-file at once, the
+                //! connection would be dropped as if the peer had closed it, and a respond committed later (handler
+                //! completing asynchronously) would have no connection left. Further input is discarded above.
             }
 
             auto sp_ctx = make_shared<Context>(wp_parent_, ct, conn->req_index++, req);
